@@ -4,7 +4,7 @@
    checked loads, the C++ conversion wrap) is proved in C06/C07.  The byte images, the accepted
    source/target pairs and the designated addresses are decided by the correspondence run.
    Statements only. *)
-From RLBoxV Require Import Casts Casts_proofs Conv_proofs.
+From RLBoxV Require Import Casts Casts_proofs Conv_proofs Ptr.
 Local Open Scope Z_scope.
 
 (* to_opaque then from_opaque denotes the same value for every kind and value *)
@@ -28,3 +28,51 @@ Proof. exact static_cast_volatile. Qed.
 Theorem C20_cast_address : forall vol s x,
   sandbox_ptr_cast vol s x = (if vol then unsandbox s x else x) /\ sandbox_ptr_cast false s 0 = 0 /\ sandbox_ptr_cast true s 0 = 0.
 Proof. exact ptr_cast_address. Qed.
+
+(* ---- casts of CELLS of sandbox memory, stated over the memory itself (every memory, every bit
+   pattern in the cell, every source/target pair the ABI supports) ---- *)
+(* the cast holds exactly static_cast<to> of the value the cell's bytes denote in the sandbox
+   type, or aborts exactly when the operand's application type cannot hold that value *)
+Theorem C20_static_cast_cell : forall a to from sk addr m,
+  abi_ok a = true -> sbx_equiv a from = Some sk -> sk <> IBool ->
+  let v := decode sk (read m addr (nbytes sk)) in
+  sandbox_static_cast_mem a to from addr m = Some (if in_range from v then Ok (wrap to v) else Abort).
+Proof. exact static_cast_mem_spec. Qed.
+Print Assumptions C20_static_cast_cell.
+(* it reads the bytes of the cell and nothing else *)
+Theorem C20_static_cast_cell_local : forall a to from sk addr m1 m2,
+  sbx_equiv a from = Some sk -> (forall y, addr <= y < addr + size sk -> m1 y = m2 y) ->
+  sandbox_static_cast_mem a to from addr m1 = sandbox_static_cast_mem a to from addr m2.
+Proof. exact static_cast_mem_local. Qed.
+Print Assumptions C20_static_cast_cell_local.
+(* the value-level cast the correspondence run compares with the headers is the memory-level one *)
+Theorem C20_static_cast_cell_refines : forall a to from sk addr m,
+  sbx_equiv a from = Some sk ->
+  sandbox_static_cast_mem a to from addr m = sandbox_static_cast a true to from (decode sk (read m addr (nbytes sk))).
+Proof. exact static_cast_mem_refines. Qed.
+Theorem C20_static_cast_after_store : forall a to from addr v m m',
+  abi_ok a = true -> in_range from v = true -> store_int a from addr v m = Some (Ok m') ->
+  sandbox_static_cast_mem a to from addr m' = Some (Ok (wrap to v)).
+Proof. exact static_cast_mem_after_store. Qed.
+Print Assumptions C20_static_cast_after_store.
+
+(* pointer casts of a pointer cell designate what a plain load of the cell designates (one
+   translation path), which is null or inside the sandbox: the result is still a checked pointer *)
+Theorem C20_ptr_cast_cell : forall w s addr m,
+  sandbox_ptr_cast_mem w s addr m = load_ptr w s addr m /\ (region_ok s -> 0 <= load_bits w addr m < rsize s -> ptr_inv s (sandbox_ptr_cast_mem w s addr m)).
+Proof. intros w s addr m. split; [exact (ptr_cast_mem_is_load w s addr m)|exact (ptr_cast_mem_inv w s addr m)]. Qed.
+Print Assumptions C20_ptr_cast_cell.
+Theorem C20_ptr_cast_cell_roundtrip : forall w s addr p m,
+  0 <= w -> 0 <= sandbox_ptr s p < 256 ^ w ->
+  sandbox_ptr_cast_mem w s addr (store_ptr w s addr p m) = unsandbox s (sandbox_ptr s p).
+Proof. exact ptr_cast_mem_roundtrip. Qed.
+Print Assumptions C20_ptr_cast_cell_roundtrip.
+
+(* opaque: every byte image (any type) survives the round trip; an opaque argument or callback
+   result crosses the boundary exactly as the tainted value it came from *)
+Theorem C20_opaque_roundtrip_image : forall img : list Z, from_opaque_img (to_opaque_img img) = img.
+Proof. exact opaque_roundtrip_image. Qed.
+Theorem C20_opaque_crosses_as_tainted : forall a k v, in_range k v = true ->
+  opaque_to_sbx a k (to_opaque_img (image k v)) = to_sbx a k v.
+Proof. exact opaque_crosses_as_tainted. Qed.
+Print Assumptions C20_opaque_crosses_as_tainted.
